@@ -365,7 +365,7 @@ class QueryHandler:
         type_ = question.type
         strategies: List[_AnswerStrategy] = []
 
-        if type_ == _TYPE_PTR and question_lower_name == _SERVICE_TYPE_ENUMERATION_NAME:
+        if type_ in (_TYPE_PTR, _TYPE_ANY) and question_lower_name == _SERVICE_TYPE_ENUMERATION_NAME:
             types = self.registry.async_get_types()
             if types:
                 strategies.append(
